@@ -4,6 +4,7 @@
 package world
 
 import (
+	"github.com/cosmos/cosmos-sdk/types/address"
 	"encoding/json"
 	"fmt"
 	"strings"
@@ -177,6 +178,12 @@ func New(cfg Config) *World {
 	balances = append(balances, banktypes.Balance{Address: gaddr.String(), Coins: sdk.NewCoins(sdk.NewCoin("stake", math.NewInt(1000000000000)))})
 	for i := 0; i < cfg.NDels; i++ {
 		a, acc := mkAcc(fmt.Sprintf("verif-del-%d", i))
+		if i == 1 {
+			// D1 has a 32-byte address (as contracts, interchain accounts and group policies have): store keys carry a
+			// length byte per address, and every parser of them must honour it
+			a = sdk.AccAddress(address.Module("verif-del", []byte{1}))
+			acc = authtypes.NewBaseAccountWithAddress(a)
+		}
 		w.Dels = append(w.Dels, a)
 		genAccs = append(genAccs, acc)
 		balances = append(balances, banktypes.Balance{Address: a.String(), Coins: funds})
